@@ -51,6 +51,47 @@ theorem C08_exception (env : Env) (body post : List Eff) (hb : ∀ e ∈ body, e
     h.2.1.valid, fun i e hm => old_read h0 h.2.1 i e hm⟩
 
 
+
+/-- **C08_exception_multi** (fault sequences): if *some* effect at or before `os.replace` fails —
+whatever else fails, earlier or later, including while the exception handlers run — then the
+exception leaves the function and in every visited state (any crash point) and at the end every
+caller path names the same inode with the same bytes and mode as before, no tensor was
+invalidated and every external tensor still reads what it read before. (Only the removal of the
+temporary paths can then be prevented, by a second failure in the handlers: `C08_exception`.) -/
+theorem C08_exception_multi (env : Env) (body post : List Eff) (hb : ∀ e ∈ body, e.tmpOnly = true)
+    (s0 : St) (h0 : WF s0) (n0 : Nat) (f : Nat → Option Nat) (k p : Nat) (hk : f k = some p)
+    (hlo : n0 ≤ k) (hhi : k ≤ n0 + 1 + body.length) :
+    let r := saveWith env body post f n0 s0
+    r.faulted = true ∧
+    ∀ s, (s = r.final ∨ ∃ st ∈ r.steps, s = st.st) →
+      (∀ n, s.fs.file (.user n) = s0.fs.file (.user n) ∧ content s (.user n) = content s0 (.user n) ∧
+            (s.fs.file (.user n)).map s.fs.mode = (s0.fs.file (.user n)).map s0.fs.mode) ∧
+      s.valid = s0.valid ∧
+      (∀ i e, (∀ m, s0.mapped i = some m → s0.fs.file (.user e.path) = some m) →
+        readT s i e = readT s0 i e) := by
+  intro r
+  have h := saveWith_early_fault env body post hb s0 h0 n0 f k p hk hlo hhi
+  refine ⟨h.1, ?_⟩
+  intro s hs
+  have ho : Old s0 s := by
+    rcases hs with rfl | ⟨st, hst, rfl⟩
+    · exact h.2.1
+    · exact h.2.2 st hst
+  exact ⟨fun n => ⟨ho.user n, old_content h0 ho n, old_mode h0 ho n⟩, ho.valid,
+    fun i e hm => old_read h0 ho i e hm⟩
+
+/-- **C08_crash_writer**: `C08_crash` for a save whose writer is *any* list of temporary-file
+effects — in particular every interleaving of the parallel writer's `truncate`, `openW`, `seekW`,
+`writeW`, `closeW`, call-backs — followed by the release loop, `copymode`, `os.replace`. -/
+theorem C08_crash_writer (cfg : Cfg) (writer : List Eff) (hw : ∀ e ∈ writer, e.tmpOnly = true)
+    (s0 : St) (h0 : WF s0) (n0 : Nat) (f : Nat → Option Nat) :
+    ∀ st ∈ (saveWriter cfg writer f n0 s0).steps,
+      content st.st (.user cfg.env.dest) = content s0 (.user cfg.env.dest) ∨
+      content st.st (.user cfg.env.dest) =
+        content (saveWriter cfg writer (fun _ => none) n0 s0).final (.user cfg.env.dest) :=
+  C08_crash cfg.env (tryBodyWith cfg s0 writer) (postEffs cfg s0) (tryBodyWith_tmpOnly cfg s0 writer hw)
+    (postEffs_noData cfg s0) s0 h0 n0 f
+
 /-- **C08_new_is_image**: "the complete new bytes" are what the tensors say — after a fault-free
 serial save the destination holds every tensor's bytes at its offset (gaps zero-filled), for
 every tensor list, chunking and prior content. -/
@@ -87,84 +128,6 @@ theorem C08_exception_serial (cfg : Cfg) (s0 : St) (h0 : WF s0) (hdir : s0.fs.is
       readT r.final i e = readT s0 i e) :=
   C08_exception cfg.env (tryBody cfg s0) (postEffs cfg s0) (tryBody_tmpOnly cfg s0) s0 h0 hdir n0 f k p
     hk hone hlo hhi
-
-/-- Membership in `overwritten` means what `_write_external_data` 464-469 computes: the tensor at
-that position is external and its path and the destination are the same file (same inode). -/
-theorem C08_overwritten_spec (fs : FS) (dest : String) :
-    ∀ (ts : List Tensor) (b i : Nat), i ∈ overwrittenFrom fs dest b ts ↔
-      ∃ t e, ts[i - b]? = some t ∧ b ≤ i ∧ t.ext = some e ∧
-        sameFile fs (.user e.path) (.user dest) = true
-  | [], b, i => by simp [overwrittenFrom]
-  | t :: ts, b, i => by
-    simp only [overwrittenFrom, List.mem_append]
-    rw [C08_overwritten_spec fs dest ts (b + 1) i]
-    constructor
-    · rintro (h | ⟨t', e, h1, h2, h3, h4⟩)
-      · cases he : t.ext with
-        | none => simp [he] at h
-        | some e =>
-          simp only [he] at h
-          split at h
-          · rename_i hs
-            simp at h; subst h
-            exact ⟨t, e, by simp, Nat.le_refl _, he, hs⟩
-          · simp at h
-      · refine ⟨t', e, ?_, by omega, h3, h4⟩
-        have : i - b = (i - (b + 1)) + 1 := by omega
-        rw [this]; simpa using h1
-    · rintro ⟨t', e, h1, h2, h3, h4⟩
-      by_cases hib : i = b
-      · left
-        subst hib
-        simp at h1; subst h1
-        simp [h3, h4]
-      · right
-        refine ⟨t', e, ?_, by omega, h3, h4⟩
-        have : i - b = (i - (b + 1)) + 1 := by omega
-        rw [this] at h1; simpa using h1
-
-/-- Membership in `invalidated`: the tensor at that position is external, its path and the
-destination were the same file before the save, and its path *is* the destination name. -/
-theorem C08_invalidated_spec (fs : FS) (dest : String) :
-    ∀ (ts : List Tensor) (b i : Nat), i ∈ invalidatedFrom fs dest b ts ↔
-      ∃ t e, ts[i - b]? = some t ∧ b ≤ i ∧ t.ext = some e ∧
-        sameFile fs (.user e.path) (.user dest) = true ∧ e.path = dest
-  | [], b, i => by simp [invalidatedFrom]
-  | t :: ts, b, i => by
-    simp only [invalidatedFrom, List.mem_append]
-    rw [C08_invalidated_spec fs dest ts (b + 1) i]
-    constructor
-    · rintro (h | ⟨t', e, h1, h2, h3, h4⟩)
-      · cases he : t.ext with
-        | none => simp [he] at h
-        | some e =>
-          simp only [he] at h
-          split at h
-          · rename_i hs
-            simp at h; subst h
-            simp only [Bool.and_eq_true, beq_iff_eq] at hs
-            exact ⟨t, e, by simp, Nat.le_refl _, he, hs.1, hs.2⟩
-          · simp at h
-      · refine ⟨t', e, ?_, by omega, h3, h4⟩
-        have : i - b = (i - (b + 1)) + 1 := by omega
-        rw [this]; simpa using h1
-    · rintro ⟨t', e, h1, h2, h3, h4, h5⟩
-      by_cases hib : i = b
-      · left
-        subst hib
-        simp at h1; subst h1
-        rw [h5] at h4
-        simp [h3, h4, h5]
-      · right
-        refine ⟨t', e, ?_, by omega, h3, h4, h5⟩
-        have : i - b = (i - (b + 1)) + 1 := by omega
-        rw [this] at h1; simpa using h1
-
-/-- Every invalidated tensor is one of the collected (released) ones. -/
-theorem C08_invalidated_sub (fs : FS) (dest : String) (ts : List Tensor) (b i : Nat)
-    (h : i ∈ invalidatedFrom fs dest b ts) : i ∈ overwrittenFrom fs dest b ts := by
-  rcases (C08_invalidated_spec fs dest ts b i).mp h with ⟨t, e, h1, h2, h3, h4, _⟩
-  exact (C08_overwritten_spec fs dest ts b i).mpr ⟨t, e, h1, h2, h3, h4⟩
 
 /-- **C08_post_samefile** (the dynamic test of the fixed loop, 504): in the state right after the
 successful `os.replace`, for every external tensor (in particular the collected ones),
@@ -216,7 +179,7 @@ theorem C08_invalidate_only_if (cfg : Cfg) (s0 : St) (h0 : WF s0) (n0 : Nat) (f 
         have := h0.named _ _ heq.symm
         omega
       refine ⟨h1, by rw [h.frozen.replaced, hr.replaced], hd, hne, ?_⟩
-      rcases (C08_invalidated_spec s0.fs cfg.env.dest cfg.tensors 0 i).mp h1 with ⟨t, e, ht, _, he, _, hp⟩
+      rcases (invalidated_spec s0.fs cfg.env.dest cfg.tensors 0 i).mp h1 with ⟨t, e, ht, _, he, _, hp⟩
       exact ⟨t, e, by simpa using ht, he, by rw [hp]; exact hd, by rw [hp]; exact hne⟩
 
 /-- **C08_invalidate_iff**: if no effect after `os.replace` fails (clean-up and the invalidation
@@ -240,6 +203,43 @@ theorem C08_invalidate_iff (cfg : Cfg) (s0 : St) (h0 : WF s0) (hrep : s0.replace
     · rintro (h1 | ⟨h1, _⟩)
       · exact hp.keep i h1
       · exact hall i h1
+
+/-- **C08_destination_resolved** (453-456): the path the save works on is not itself a symlink
+of the table — `os.replace` therefore never replaces a link, it replaces what the chain ends in —
+unless the chain is longer than the fuel (a cycle); and a request that is not a symlink is used as
+it is. -/
+theorem C08_destination_resolved (links : List (String × String)) :
+    ∀ (fuel : Nat) (p : String),
+      (links.lookup (resolveLink links fuel p) = none ∨
+        ∀ k, k ≤ fuel → links.lookup (resolveLink links k p) ≠ none) ∧
+      (links.lookup p = none → resolveLink links fuel p = p)
+  | 0, p => by
+    refine ⟨?_, fun _ => rfl⟩
+    cases h : links.lookup p with
+    | none => left; simpa [resolveLink] using h
+    | some t =>
+      right
+      intro k hk
+      have : k = 0 := by omega
+      subst this
+      simp [resolveLink, h]
+  | fuel + 1, p => by
+    cases h : links.lookup p with
+    | none => simp [resolveLink, h]
+    | some t =>
+      refine ⟨?_, fun h' => by simp [h] at h'⟩
+      simp only [resolveLink, h]
+      rcases (C08_destination_resolved links fuel t).1 with h1 | h1
+      · exact Or.inl h1
+      · right
+        intro k hk
+        cases k with
+        | zero => simp [resolveLink, h]
+        | succ k => simp only [resolveLink, h]; exact h1 k (by omega)
+
+example : destinationOf [("model.data", "current.data"), ("current.data", "sub/w.bin")] "model.data" = "sub/w.bin" := by
+  decide
+example : destinationOf [("model.data", "current.data")] "plain.data" = "plain.data" := by decide
 
 /-- **C08_sharded_no_touch**: a (sequential) sharded save never changes a file that existed
 before — in every visited state (any crash point) and at the end, for every fault assignment,
@@ -275,6 +275,107 @@ theorem C08_sharded_no_touch (newMode : Nat) (cb : Bool) (jobs : List (String ×
     · intro n i hn
       exact ⟨h.2.file n i hn, h.2.data i (h0.named _ _ hn), h.2.mode i (h0.named _ _ hn)⟩
 
+
+/-- `unload` when the load phase faulted / did not fault. -/
+theorem unload_load_faulted (cfg : Cfg) (small : List (Nat × Ext)) (f : Nat → Option Nat) (s0 : St)
+    (h : (runList cfg.env f (loadEffs small) 0 s0).faulted = true) :
+    unload cfg small f s0 = runList cfg.env f (loadEffs small) 0 s0 := by
+  simp [unload, h]
+
+theorem unload_load_ok (cfg : Cfg) (small : List (Nat × Ext)) (f : Nat → Option Nat) (s0 : St)
+    (h : (runList cfg.env f (loadEffs small) 0 s0).faulted = false) :
+    (unload cfg small f s0).final =
+      (save cfg f (runList cfg.env f (loadEffs small) 0 s0).steps.length
+        (runList cfg.env f (loadEffs small) 0 s0).final).final ∧
+    (unload cfg small f s0).faulted =
+      (save cfg f (runList cfg.env f (loadEffs small) 0 s0).steps.length
+        (runList cfg.env f (loadEffs small) 0 s0).final).faulted := by
+  simp [unload, h]
+
+/-- **C08_unload_exception**: `C08_exception` for `unload_from_model` (the entry point `ir.save`
+uses): exactly one effect fails, while the small external tensors are loaded or in the save up to
+and including `os.replace`; then the exception leaves, every caller path has the same inode, bytes
+and mode as before, the temporary file and directory are gone and no tensor was invalidated. -/
+theorem C08_unload_exception (cfg : Cfg) (small : List (Nat × Ext)) (s0 : St) (h0 : WF s0)
+    (hdir : s0.fs.isDir .tmpDir = false) (f : Nat → Option Nat) (k p : Nat) (hk : f k = some p)
+    (hone : ∀ n, n ≠ k → f n = none)
+    (hhi : k ≤ (loadEffs small).length + 1 + (tryBody cfg s0).length) :
+    (unload cfg small f s0).faulted = true ∧
+    (∀ n, (unload cfg small f s0).final.fs.file (.user n) = s0.fs.file (.user n) ∧
+          content (unload cfg small f s0).final (.user n) = content s0 (.user n) ∧
+          ((unload cfg small f s0).final.fs.file (.user n)).map (unload cfg small f s0).final.fs.mode
+            = (s0.fs.file (.user n)).map s0.fs.mode) ∧
+    (unload cfg small f s0).final.fs.file .tmpFile = none ∧
+    (unload cfg small f s0).final.fs.isDir .tmpDir = false ∧
+    (unload cfg small f s0).final.valid = s0.valid := by
+  have hl := load_phase cfg.env f small 0 s0
+  have hs := hl.1
+  cases hlf : (runList cfg.env f (loadEffs small) 0 s0).faulted with
+  | true =>
+    rw [unload_load_faulted cfg small f s0 hlf]
+    refine ⟨hlf, fun n => ?_, by rw [hs.fs]; exact h0.fresh, by rw [hs.fs]; exact hdir, hs.valid⟩
+    simp [content, hs.fs]
+  | false =>
+    have hu := unload_load_ok cfg small f s0 hlf
+    rw [hu.1, hu.2]
+    have hlen := runList_length_nofault cfg.env f _ _ _ hlf
+    have hnone := runList_nofault_none cfg.env f _ _ _ hlf
+    have hkL : (loadEffs small).length ≤ k := by
+      apply Nat.le_of_not_lt
+      intro hlt
+      have := hnone k (Nat.zero_le _) (by omega)
+      rw [this] at hk; simp at hk
+    have hwf := sameFS_wf h0 hs
+    have hx := C08_exception_serial cfg _ hwf (by rw [hs.fs]; exact hdir)
+      (runList cfg.env f (loadEffs small) 0 s0).steps.length f k p hk hone (by omega)
+      (by rw [tryBody_congr cfg hs.fs, hlen]; exact hhi)
+    simp only [] at hx
+    refine ⟨hx.1, fun n => ?_, hx.2.2.1, hx.2.2.2.1, by rw [hx.2.2.2.2.1, hs.valid]⟩
+    have hn := hx.2.1 n
+    refine ⟨by rw [hn.1, hs.fs], by rw [hn.2.1]; exact sameFS_content hs _, by rw [hn.2.2, hs.fs]⟩
+
+/-- **C08_unload_exception_multi**: fault sequences for `unload_from_model`: if some effect at or
+before `os.replace` fails (whatever else fails), the exception leaves, every caller path has the
+same inode, bytes and mode as before and no tensor was invalidated. -/
+theorem C08_unload_exception_multi (cfg : Cfg) (small : List (Nat × Ext)) (s0 : St) (h0 : WF s0)
+    (f : Nat → Option Nat) (k p : Nat) (hk : f k = some p)
+    (hhi : k ≤ (loadEffs small).length + 1 + (tryBody cfg s0).length) :
+    (unload cfg small f s0).faulted = true ∧
+    (∀ n, (unload cfg small f s0).final.fs.file (.user n) = s0.fs.file (.user n) ∧
+          content (unload cfg small f s0).final (.user n) = content s0 (.user n) ∧
+          ((unload cfg small f s0).final.fs.file (.user n)).map (unload cfg small f s0).final.fs.mode
+            = (s0.fs.file (.user n)).map s0.fs.mode) ∧
+    (unload cfg small f s0).final.valid = s0.valid := by
+  have hl := load_phase cfg.env f small 0 s0
+  have hs := hl.1
+  cases hlf : (runList cfg.env f (loadEffs small) 0 s0).faulted with
+  | true =>
+    rw [unload_load_faulted cfg small f s0 hlf]
+    refine ⟨hlf, fun n => ?_, hs.valid⟩
+    simp [content, hs.fs]
+  | false =>
+    have hu := unload_load_ok cfg small f s0 hlf
+    rw [hu.1, hu.2]
+    have hlen := runList_length_nofault cfg.env f _ _ _ hlf
+    have hnone := runList_nofault_none cfg.env f _ _ _ hlf
+    have hkL : (loadEffs small).length ≤ k := by
+      apply Nat.le_of_not_lt
+      intro hlt
+      have := hnone k (Nat.zero_le _) (by omega)
+      rw [this] at hk; simp at hk
+    have hwf := sameFS_wf h0 hs
+    have hx := C08_exception_multi cfg.env
+      (tryBody cfg (runList cfg.env f (loadEffs small) 0 s0).final)
+      (postEffs cfg (runList cfg.env f (loadEffs small) 0 s0).final)
+      (tryBody_tmpOnly cfg _) (runList cfg.env f (loadEffs small) 0 s0).final hwf
+      (runList cfg.env f (loadEffs small) 0 s0).steps.length f k p hk (by omega)
+      (by rw [tryBody_congr cfg hs.fs, hlen]; exact hhi)
+    simp only [] at hx
+    have hfin := hx.2 _ (Or.inl rfl)
+    unfold save
+    refine ⟨hx.1, fun n => ?_, by rw [hfin.2.1, hs.valid]⟩
+    have hn := hfin.1 n
+    refine ⟨by rw [hn.1, hs.fs], by rw [hn.2.1]; exact sameFS_content hs _, by rw [hn.2.2, hs.fs]⟩
 
 /-- **C08_unload_crash**: the same crash guarantee for `unload_from_model` (what `ir.save` calls):
 small external tensors are first copied to memory, then the single-file save runs; in every
@@ -326,23 +427,6 @@ theorem C08_unload_fs_frame (cfg : Cfg) (small : List (Nat × Ext)) (s0 : St) (h
         exact ⟨rfl, rfl⟩
 
 
-/-- **C08_small_loaded_first** (the mechanism of `unload_from_model` 1058-1065): when the load
-phase completes, the memory copy of every small external tensor is what the tensor read *before*
-the save started — in every later state, whatever then happens to the data file (the save never
-touches the copies), for every fault assignment of the save. -/
-theorem C08_small_loaded_first (cfg : Cfg) (small : List (Nat × Ext))
-    (hnd : (small.map (·.1)).Nodup) (s0 : St) (f : Nat → Option Nat)
-    (hok : (runList cfg.env f (loadEffs small) 0 s0).faulted = false) :
-    ∀ p ∈ small, (unload cfg small f s0).final.mem p.1 = readT s0 p.1 p.2 := by
-  intro p hp
-  have hl := loads_spec cfg.env s0 small s0 hnd rfl rfl (fun _ _ => rfl)
-  have hfin : (runList cfg.env f (loadEffs small) 0 s0).final = applyAll cfg.env (loadEffs small) s0 := by
-    rw [runList_nofault cfg.env f _ _ _ hok, runList_none_final]
-  unfold unload
-  simp only [hok, Bool.false_eq_true, if_false]
-  rw [(save_mem cfg f _ _).1, hfin]
-  exact hl.1 p hp
-
 /-! ### Non-vacuity: a concrete well-formed state and concrete runs -/
 
 /-- a directory with `m.data` = inode 0 holding `[1,2,3,4]` (mode 0o600) -/
@@ -350,7 +434,7 @@ def exFS : FS :=
   ⟨fun p => if p = .user "m.data" then some 0 else none, fun _ => false,
    fun i => if i = 0 then [1, 2, 3, 4] else [], fun _ => 384, 1⟩
 
-def exSt : St := ⟨exFS, none, 0, fun _ => true, fun _ => none, fun _ => none, false⟩
+def exSt : St := ⟨exFS, none, 0, fun _ => true, fun _ => none, fun _ => none, false, fun _ => none⟩
 
 /-- tensor 0 is in memory (two chunks), tensor 1 is external, backed by the destination -/
 def exCfg : Cfg :=
@@ -362,7 +446,7 @@ theorem exSt_wf : WF exSt :=
       split at h
       · simp at h; omega
       · simp at h,
-   rfl, rfl⟩
+   rfl, rfl, fun _ => rfl⟩
 
 /-- the hypotheses of the theorems are satisfiable, and the run really replaces the file -/
 example : WF exSt ∧ exSt.fs.isDir .tmpDir = false ∧ exSt.replaced = false := ⟨exSt_wf, rfl, rfl⟩
@@ -387,12 +471,12 @@ example :
     (r.steps.find? (·.failed)).map (fun st => (content st.st .tmpFile, content st.st (.user "m.data")))
       = some (some [9, 9], some [1, 2, 3, 4]) := by decide
 
-/-- **C08_cleanup_gap** (why `C08_invalidate_iff` excludes faults after the replace): if
+/-- The clean-up gap (D131; why `C08_invalidate_iff` excludes faults after the replace): if
 `os.rmdir` fails *after* a successful `os.replace`, the exception skips the invalidation loop —
 the destination already holds the new bytes, the tensor backed by it is still marked valid and
 now reads bytes of the new file. (Observed on the real code too; the English property only asks
 for the "only when" direction, `C08_invalidate_only_if`.) -/
-theorem C08_cleanup_gap :
+example :
     let r := save exCfg (fun n => if n = 14 then some 0 else none) 0 exSt
     r.faulted = true ∧ r.final.replaced = true ∧
     content r.final (.user "m.data") = some [9, 9, 8, 1, 2] ∧ r.final.valid 1 = true ∧
@@ -415,6 +499,18 @@ example :
     let r := unload exCfg [(7, ⟨"m.data", 1, 2⟩)] (fun _ => none) exSt
     r.faulted = false ∧ r.final.mem 7 = some [2, 3] ∧
     content r.final (.user "m.data") = some [9, 9, 8, 1, 2] := by decide
+
+/-- the parallel writer's effects: two workers with their own handles write out of order into the
+preallocated temporary file; the result is the same image, and a fault on worker 1's write leaves
+the destination as it was -/
+def exWriter : List Eff :=
+  [.openTmp, .truncate 5, .closeTmp, .openW 0, .openW 1, .seekW 1 3, .writeW 1 [1, 2], .seekW 0 0,
+   .writeW 0 [9, 9, 8], .closeW 0, .closeW 1]
+example : (∀ e ∈ exWriter, e.tmpOnly = true) ∧
+    content (saveWriter exCfg exWriter (fun _ => none) 0 exSt).final (.user "m.data") = some [9, 9, 8, 1, 2] ∧
+    (saveWriter exCfg exWriter (fun n => if n = 7 then some 1 else none) 0 exSt).faulted = true ∧
+    content (saveWriter exCfg exWriter (fun n => if n = 7 then some 1 else none) 0 exSt).final (.user "m.data")
+      = some [1, 2, 3, 4] := by decide
 
 /-- sharded: the pre-flight refuses when a shard name exists, and otherwise runs -/
 example : (saveSharded 420 false [("m.data", [])] (fun _ => none) exSt).steps.length = 0 := by decide
